@@ -323,6 +323,10 @@ func pruneBy(as Assume, extra func(f *paths.Frame, iff *ssa.If, idx int) bool) f
 		}
 		atom, truth := edgeAtom(iff, idx)
 		if atom == "" {
+			// a comparison of two booleans whose atoms are both assumed: (a > 0) != (b > 0)
+			if v, known := evalBoolUnder(as, iff.Cond); known {
+				return v != (idx == 0)
+			}
 			return false
 		}
 		if want, ok := as[atom]; ok {
@@ -632,4 +636,29 @@ func boolPhiPruner(starts []paths.Node) func(f *paths.Frame, iff *ssa.If, idx in
 		// the flag is known: prune the edge that contradicts it
 		return truth != canTrue
 	}
+}
+
+// evalBoolUnder evaluates a boolean SSA value under assumptions over atoms, as far as they decide it:
+// atoms themselves, negation, and ==/!= between two decided booleans.
+func evalBoolUnder(as Assume, v ssa.Value) (val bool, known bool) {
+	if u, ok := v.(*ssa.UnOp); ok && u.Op == token.NOT {
+		x, k := evalBoolUnder(as, u.X)
+		return !x, k
+	}
+	if a, t := condAtom(v, true); a != "" {
+		if want, ok := as[a]; ok {
+			// condAtom(v, true) = (a, t) means: v is true exactly when atom a has truth t
+			return want == t, true
+		}
+	}
+	if bo, ok := v.(*ssa.BinOp); ok && (bo.Op == token.EQL || bo.Op == token.NEQ) {
+		if b1, ok := bo.X.Type().Underlying().(*types.Basic); ok && b1.Kind() == types.Bool {
+			x, kx := evalBoolUnder(as, bo.X)
+			y, ky := evalBoolUnder(as, bo.Y)
+			if kx && ky {
+				return (x == y) == (bo.Op == token.EQL), true
+			}
+		}
+	}
+	return false, false
 }
